@@ -115,7 +115,9 @@ RoundTrip ==
 
 H == CASE Mode = "strings" -> (ValB(SubSeq(item.pb, 1, 8)) + ValB(SubSeq(item.pb, Len(item.pb) - 7, Len(item.pb))) * 3 + Len(item.wb)) % EmitMod
        [] Mode = "lists" -> (Len(item.pb) + Len(item.lst) * 5 + Len(item.wb)) % EmitMod
-       [] Mode = "programs" -> (Len(item.dag) * 3 + Len(item.wit)) % EmitMod
+       [] Mode = "programs" -> (Len(item.dag) * 4 + 7 * Cardinality({i \in 1..Len(item.dag) : item.dag[i][1] = "witness"})
+                                + 3 * Cardinality({i \in 1..Len(item.dag) : item.dag[i][2] # 0})
+                                + 5 * Cardinality({i \in 1..Len(item.wit) : item.wit[i][1] \in {"L", "R"}})) % EmitMod
 Emit == (Done /\ H = 0) =>
   PrintT(<<"CASE", ToJson(
      IF Mode = "programs"
